@@ -22,10 +22,13 @@ RECURSIVE Flat(_, _)
 Flat(ss, i) == IF i > Len(ss) THEN <<>> ELSE ss[i] \o Flat(ss, i + 1)
 Channels(ct) == CASE ct = 0 -> 1 [] ct = 2 -> 3 [] ct = 3 -> 1 [] ct = 4 -> 2 [] OTHER -> 4
 MaxV(bd) == Pow(2, bd) - 1
-\* the sample of channel c (1-based) at (x, y); the pixel at (0, 0) of a colour-keyed image is the transparent colour
+\* the sample of channel c (1-based) at (x, y); the pixel at (0, 0) of a colour-keyed image is the transparent colour, its neighbours miss it by one bit
 Sample(im, x, y, c) ==
   IF im.ct = 3 THEN (x * 3 + y * 5 + im.seed) % Len(im.pal)
   ELSE IF im.ct \in {0, 2} /\ im.trns # <<>> /\ (x + 2 * y) % 5 = 0 THEN im.trns[c]
+  \* near misses of the key: the lowest bit of the first (resp. last) channel differs, everything else is the key's
+  ELSE IF im.ct \in {0, 2} /\ im.trns # <<>> /\ (x + 2 * y) % 5 \in {1, 2}
+       THEN (IF c = (IF (x + 2 * y) % 5 = 1 THEN 1 ELSE Channels(im.ct)) THEN (IF im.trns[c] % 2 = 0 THEN im.trns[c] + 1 ELSE im.trns[c] - 1) ELSE im.trns[c])
   ELSE (x * 2503 + y * 7919 + c * 1237 + im.seed * 97) % Pow(2, im.bd)
 RowSamples(im, xs, y) == Flat([i \in 1..Len(xs) |-> [c \in 1..Channels(im.ct) |-> Sample(im, xs[i], y, c)]], 1)
 RowBytesOf(im, n) == (n * Channels(im.ct) * im.bd + 7) \div 8
